@@ -864,6 +864,7 @@ theorem createRangedPool_ok {x y : Int} {minP maxP initP : Dec} {p : RPool}
   · exact absurd (pure_ok h) (by simp)
   rename_i cv
   obtain ⟨a, _, h⟩ := bind_ok h
+  obtain ⟨ps, _, h⟩ := bind_ok h
   obtain ⟨q, hq, h⟩ := bind_ok h
   have e : some q = some p := pure_ok h
   have e' := Option.some.inj e
